@@ -27,7 +27,8 @@ use ractor::factory::routing::{
     StickyQueuerRouting,
 };
 use ractor::factory::{
-    DiscardHandler, DiscardMode, DiscardReason, DiscardSettings, Factory, FactoryArguments,
+    DiscardHandler, DiscardMode, DiscardReason, DiscardSettings, DynamicDiscardController, Factory,
+    FactoryArguments, UpdateSettingsRequest,
     FactoryLifecycleHooks, FactoryMessage, Job, JobOptions, WorkerBuilder, WorkerId, WorkerMessage,
     WorkerStartContext,
 };
@@ -363,6 +364,11 @@ where
             "drain" => {
                 let _ = factory.cast(FactoryMessage::DrainRequests);
             }
+            "upd" => {
+                // UpdateSettings { discard_settings } at runtime
+                let req = UpdateSettingsRequest::builder().discard_settings(parse_discard(&op[1])).build();
+                let _ = factory.cast(FactoryMessage::UpdateSettings(req));
+            }
             "adv" => {
                 tokio::time::advance(Duration::from_nanos(op[1].parse().unwrap())).await;
             }
@@ -427,14 +433,26 @@ where
     coq_list(&windows)
 }
 
+/// a dynamic controller that keeps the limit (it is only consulted on the 10 s ping cycle)
+struct KeepLimit;
+impl DynamicDiscardController for KeepLimit {
+    fn compute(&mut self, current_threshold: usize) -> BoxFuture<'_, usize> {
+        async move { current_threshold }.boxed()
+    }
+}
+
+/// none | newest:<L> | oldest:<L> | dyn-newest:<L> | dyn-oldest:<L>
 fn parse_discard(s: &str) -> DiscardSettings {
     if s == "none" {
         return DiscardSettings::None;
     }
     let (m, l) = s.split_once(':').expect("discard");
-    DiscardSettings::Static {
-        limit: l.parse().expect("limit"),
-        mode: if m == "newest" { DiscardMode::Newest } else { DiscardMode::Oldest },
+    let limit: usize = l.parse().expect("limit");
+    let mode = if m.ends_with("newest") { DiscardMode::Newest } else { DiscardMode::Oldest };
+    if m.starts_with("dyn-") {
+        DiscardSettings::Dynamic { limit, mode, updater: Box::new(KeepLimit) }
+    } else {
+        DiscardSettings::Static { limit, mode }
     }
 }
 
